@@ -8,7 +8,7 @@ from ..runner import crash_violation
 PID = "C07"
 LEVEL = "model_checking"
 RULE = ("build files from a grammar: {sphere, cylinder, rectangle} x {in, out} x 2 sizes x residue ranges (all / a sub-range); "
-        "rw_restriction with 2 normals x 2 signed angles; distance restraints (d in {0.5, 1.5}, tol in {0, 0.3}) between the ends "
+        "rw_restriction with 2 normals x 2 signed angles, two restrictions on one molecule (disjoint residues; the same residues); distance restraints (d in {0.5, 1.5}, tol in {0, 0.3}) between the ends "
         "of linear chains of 4-6 residues; -cycles on rings of 3-6 residues with cycle_tol in {0, 0.3}; persistence_length on "
         "chains of 5-6 residues with every sampled end-to-end distance as an option; every trajectory of the real gen_coords with "
         "<=2 direction deviations (thorough 3) and <=1 start deviation. Oracle on every accepted placement and on the final "
@@ -67,6 +67,15 @@ def systems(tier):
     for cmb in combos:
         grid = ([[0.75, 2.0, 2.0]] + GRID) if "rw" in cmb else GRID
         out.append(dict(types=["CH6"], molecules=[("CH6", 1)], box=BOX, grid=grid, kwargs=dict(nrewind=3, maxiter=4), **cmb))
+    # two direction restrictions on one molecule: for different residues, and both on the same residues (the body
+    # diagonals are the only lattice directions with a positive component along two axes)
+    rwz = dict(resname="S", start=4, stop=7, normal=(0.0, 0.0, 1.0), angle=95.0)
+    rwx2 = dict(resname="S", start=2, stop=4, normal=(1.0, 0.0, 0.0), angle=95.0)
+    out.append(dict(types=["CH6"], molecules=[("CH6", 1)], box=BOX, grid=[[0.75, 2.0, 0.75]] + GRID, rw=[rwx2, rwz], kwargs=dict(nrewind=3, maxiter=4)))
+    out.append(dict(types=["CH6"], molecules=[("CH6", 1)], box=BOX, grid=[[0.75, 2.0, 0.75]] + GRID, rw=[rwz, rwx2], kwargs=dict(nrewind=3, maxiter=4)))
+    both = [dict(resname="S", start=2, stop=6, normal=(1.0, 0.0, 0.0), angle=95.0), dict(resname="S", start=2, stop=6, normal=(0.0, 0.0, 1.0), angle=95.0)]
+    out.append(dict(types=["CH5"], molecules=[("CH5", 1)], box=BOX, grid=[[0.75, 2.0, 0.75]] + GRID, rw=both, bundle="axis+diag14", kwargs=dict(nrewind=3, maxiter=4)))
+    out.append(dict(types=["CH5"], molecules=[("CH5", 1)], box=BOX, grid=[[0.75, 2.0, 0.75]] + GRID, rw=both[::-1], bundle="axis+diag14", kwargs=dict(nrewind=3, maxiter=4)))
     for typ in ("RING3", "RING4", "RING5", "RING6"):
         for tol in (0.0, 0.3):
             # rings need the face-diagonal directions (60 degree angles exist among them) to be closable within one step
@@ -75,6 +84,11 @@ def systems(tier):
         n = len(G.TYPES[typ]["res"])
         out.append(dict(types=[typ], molecules=[(typ, 2)], box=BOX, grid=GRID, pers=dict(lp=1.0, start=0, stop=n - 1), kwargs=dict(nrewind=3, maxiter=4)))
     return out
+
+
+def rw_list(sysd):
+    rw = sysd.get("rw")
+    return [] if not rw else (rw if isinstance(rw, list) else [rw])
 
 
 def render_extra(sysd):
@@ -90,8 +104,7 @@ def render_extra(sysd):
         lines.append(f"[ {kind} ]")
         for g in gs:
             lines.append(geo_line(kind, g["resname"], g["start"], g["stop"], g["inout"], g["centre"], g["params"]))
-    if sysd.get("rw"):
-        r = sysd["rw"]
+    for r in rw_list(sysd):
         lines += ["[ rw_restriction ]", f"{r['resname']} {r['start']} {r['stop']} {r['normal'][0]} {r['normal'][1]} {r['normal'][2]} {r['angle']}"]
     if sysd.get("dist"):
         lines.append("[ distance_restraints ]")
@@ -169,13 +182,14 @@ def judge(sysd, res, choices):
                 if g["resname"] == resname and g["start"] <= resid < g["stop"] and not geo_ok(g, p):
                     bad("geometric-restraint-holds", f"residue {resid}{resname} placed at {p} violates {g['kind']} {g['inout']} {g['centre']} {g['params']}")
             rw = sysd.get("rw")
-            if rw and pend and pend[:2] == (m, k) and (m, pend[2]) in pos and rw["resname"] == resname and rw["start"] <= resid < rw["stop"]:
+            for rw in rw_list(sysd):
+              if pend and pend[:2] == (m, k) and (m, pend[2]) in pos and rw["resname"] == resname and rw["start"] <= resid < rw["stop"]:
                 step = O.min_image(p - pos[(m, pend[2])], box)
                 nrm = np.array(rw["normal"])
                 cosang = float(np.dot(nrm, step) / (np.linalg.norm(nrm) * np.linalg.norm(step)))
                 ang = math.degrees(math.acos(max(-1.0, min(1.0, cosang))))
                 sign_ok = np.sign(np.dot(nrm, step)) == np.sign(rw["angle"])
-                tags = []
+                tags = ["several-direction-restrictions"] if len(rw_list(sysd)) > 1 else []
                 if not np.allclose(step, p - pos[(m, pend[2])]):
                     tags.append("step-across-periodic-boundary")
                 # the cone is around the normal for positive angles and around -normal for negative ones
